@@ -14,6 +14,7 @@ EXTENDS FBRef, Json, IOUtils
 
 CP_K == <<"k">>
 CP_CK == <<"c", "k">>
+CP_CCK == <<"c", "c2", "k">>      \* two directory levels that exist only for the cache file
 KF_NONE == {}
 KF_OPEN == {"KF-hidden-foreign-target"}
 
